@@ -285,6 +285,140 @@ Proof.
   - exists t. unfold Conc.step. rewrite Ep. destruct r as [|a r']; [discriminate|]. destruct (a _). discriminate.
 Qed.
 End Reachable.
+
+(* ---- outputs stay valid: what a completed region reported remains true of the protected component ----
+   [Ext k c c']  : the component may only evolve from c to c' (e.g. cache entries are never replaced);
+   [Valid tk o c]: the outputs o of region tk are consistent with component value c (e.g. "index i holds
+                   instance x").  If every region extends the component and reports outputs valid for the
+   component it leaves behind, and validity survives extension, then at every reachable state every output
+   ever reported by any goroutine is valid for the current COMMITTED value of its component (the value
+   before the running writer, if any, entered).  Two outputs about the same thing therefore agree. *)
+Section Validity.
+Variable Ext : lk -> C -> C -> Prop.
+Variable Valid : task -> list out -> C -> Prop.
+Hypothesis valid_stable : forall tk o c c', Valid tk o c -> Ext (t_lock tk) c c' -> Valid tk o c'.
+Definition tk_valid (tk : task) : Prop :=
+  forall c, Good (t_lock tk) c ->
+    Ext (t_lock tk) c (fst (run_acts (t_acts tk) c)) /\ Valid tk (snd (run_acts (t_acts tk) c)) (fst (run_acts (t_acts tk) c)).
+Hypothesis progs_valid : forall t h tk, consistent t h -> hist_ok h -> progs t h = Some tk -> tk_valid tk.
+
+Definition committed (s : state) (k : lk) : C :=
+  match writer s k with
+  | Some w => match tpc (th s w) with Inside _ c0 _ _ _ => c0 | _ => comp s k end
+  | None => comp s k
+  end.
+Definition InvV (s : state) : Prop :=
+  forall t tk o, In (tk, o) (hist (th s t)) -> Valid tk o (committed s (t_lock tk)).
+
+Lemma committed_eq s s' k :
+  writer s' k = writer s k -> comp s' k = comp s k ->
+  (forall w, writer s k = Some w -> tpc (th s' w) = tpc (th s w)) -> committed s' k = committed s k.
+Proof.
+  intros Hw Hc Hp. unfold committed. rewrite Hw, Hc. destruct (writer s k) as [w|]; [|reflexivity]. now rewrite (Hp w eq_refl).
+Qed.
+
+Lemma step_invV s t s' : Inv s -> InvV s -> step s t = Some s' -> InvV s'.
+Proof.
+  intros HI HV H. pose proof HI as [Ir Iw Ie Ig Ia Ih Ip Ic]. unfold Conc.step in H.
+  pose proof (Ia t) as Iat. pose proof (Ic t) as Ict. destruct Ict as [Icons Icur].
+  assert (IwT : forall k, writer s k = Some t <-> in_W (tpc (th s t)) k) by (intro; apply Iw).
+  destruct (tpc (th s t)) as [|tk|tk c0 d r o] eqn:Epc; cbn [pc_ok in_W] in Iat, IwT, Icur.
+  - (* choose: nothing protected changes; t holds no lock *)
+    destruct (prog (th s t) (hist (th s t))) as [tk|] eqn:Eg; [|discriminate]. inversion H; subst; clear H.
+    intros t' tk' o'. cbn [th]. destruct (Nat.eq_dec t' t) as [->|Hne]; [rewrite updn_same | rewrite updn_other by exact Hne];
+      cbn [hist set_pc]; intro Hin.
+    all: rewrite (committed_eq s _ (t_lock tk')); [now apply (HV _ _ _ Hin) | reflexivity | reflexivity |].
+    all: intros w Hw; cbn [th]; destruct (Nat.eq_dec w t) as [->|Hw']; [apply IwT in Hw; destruct Hw | now rewrite updn_other].
+  - (* acquire *)
+    destruct (writer s (t_lock tk)) as [w0|] eqn:Ew; [discriminate|].
+    destruct (t_write tk) eqn:Em.
+    + destruct (readers s (t_lock tk)) as [|x xs] eqn:Er; [|discriminate]. cbn [isnilb] in H. inversion H; subst; clear H.
+      intros t' tk' o' Hin.
+      assert (Hin' : In (tk', o') (hist (th s t'))).
+      { cbn [th] in Hin. destruct (Nat.eq_dec t' t) as [->|Hne]; [now rewrite updn_same in Hin | now rewrite updn_other in Hin by exact Hne]. }
+      specialize (HV _ _ _ Hin'). unfold committed in *. cbn [writer comp th].
+      destruct (lk_eq_dec (t_lock tk') (t_lock tk)) as [Ek|Ek].
+      * rewrite Ek, updk_same, updn_same. cbn [tpc set_pc]. rewrite Ek, Ew in HV. exact HV.
+      * rewrite updk_other by exact Ek. destruct (writer s (t_lock tk')) as [w|] eqn:Ew'; [|exact HV].
+        destruct (Nat.eq_dec w t) as [->|Hw']; [apply IwT in Ew'; destruct Ew' | now rewrite updn_other by exact Hw'].
+    + inversion H; subst; clear H. intros t' tk' o' Hin.
+      assert (Hin' : In (tk', o') (hist (th s t'))).
+      { cbn [th] in Hin. destruct (Nat.eq_dec t' t) as [->|Hne]; [now rewrite updn_same in Hin | now rewrite updn_other in Hin by exact Hne]. }
+      rewrite (committed_eq s _ (t_lock tk')); [exact (HV _ _ _ Hin') | reflexivity | reflexivity |].
+      intros w Hw; cbn [th]; destruct (Nat.eq_dec w t) as [->|Hw']; [apply IwT in Hw; destruct Hw | now rewrite updn_other].
+  - destruct Iat as (A1 & A2 & A3 & A4). destruct r as [|a rest].
+    + (* release *)
+      inversion H; subst; clear H. rewrite app_nil_r in A1.
+      assert (Htv : tk_valid tk) by (eapply progs_valid; eauto).
+      destruct (Htv c0 A3) as [Hext Hval]. rewrite A1, A4 in Hext, Hval. cbn [fst snd] in Hext, Hval.
+      destruct (t_write tk) eqn:Em.
+      * assert (Hwt : writer s (t_lock tk) = Some t) by (apply IwT; auto).
+        assert (Hc0 : committed s (t_lock tk) = c0) by (unfold committed; now rewrite Hwt, Epc).
+        intros t' tk' o' Hin. unfold committed. cbn [writer comp th].
+        destruct (lk_eq_dec (t_lock tk') (t_lock tk)) as [Ek|Ek].
+        -- rewrite Ek, updk_same.
+           assert (Hold : In (tk', o') (hist (th s t')) -> Valid tk' o' (comp s (t_lock tk))).
+           { intro Hi. apply (valid_stable _ _ c0); [|now rewrite Ek]. specialize (HV _ _ _ Hi). now rewrite Ek, Hc0 in HV. }
+           cbn [th] in Hin. destruct (Nat.eq_dec t' t) as [->|Hne].
+           ++ rewrite updn_same in Hin. cbn [hist] in Hin. destruct Hin as [E|Hi]; [inversion E; subst; exact Hval | now apply Hold].
+           ++ rewrite updn_other in Hin by exact Hne. now apply Hold.
+        -- rewrite updk_other by exact Ek.
+           assert (Hin' : In (tk', o') (hist (th s t'))).
+           { cbn [th] in Hin. destruct (Nat.eq_dec t' t) as [->|Hne]; [|now rewrite updn_other in Hin by exact Hne].
+             rewrite updn_same in Hin. cbn [hist] in Hin. destruct Hin as [E|Hi]; [inversion E; subst; congruence | exact Hi]. }
+           specialize (HV _ _ _ Hin'). unfold committed in HV.
+           destruct (writer s (t_lock tk')) as [w|] eqn:Ew'; [|exact HV].
+           destruct (Nat.eq_dec w t) as [->|Hw']; [apply IwT in Ew'; destruct Ew' as [E _]; congruence | now rewrite updn_other by exact Hw'].
+      * (* read release: the component did not change while reading; no writer on this lock *)
+        assert (Hnw : writer s (t_lock tk) = None).
+        { destruct (writer s (t_lock tk)) as [w|] eqn:Ew; [|reflexivity]. exfalso.
+          assert (Hr : In t (readers s (t_lock tk))) by (apply Ir; rewrite Epc; cbn; auto).
+          rewrite Ie in Hr by congruence. exact Hr. }
+        intros t' tk' o' Hin.
+        assert (Hcm : forall k, committed {| readers := updk (readers s) (t_lock tk) (remove Nat.eq_dec t (readers s (t_lock tk)));
+                                      writer := writer s; comp := comp s;
+                                      th := updn (th s) t {| tpc := Idle; hist := (tk, o) :: hist (th s t); prog := prog (th s t) |} |} k
+                                 = committed s k).
+        { intro k. apply committed_eq; [reflexivity | reflexivity|]. intros w Hw. cbn [th].
+          destruct (Nat.eq_dec w t) as [->|Hw']; [apply IwT in Hw; destruct Hw; congruence | now rewrite updn_other]. }
+        rewrite Hcm. cbn [th] in Hin. destruct (Nat.eq_dec t' t) as [->|Hne].
+        -- rewrite updn_same in Hin. cbn [hist] in Hin. destruct Hin as [E|Hi]; [|exact (HV _ _ _ Hi)].
+           inversion E; subst. unfold committed. now rewrite Hnw.
+        -- rewrite updn_other in Hin by exact Hne. exact (HV _ _ _ Hin).
+    + (* one access: the committed value of the lock is the writer's snapshot, or the component is unchanged *)
+      destruct (a (comp s (t_lock tk))) as [c' o1] eqn:Ea. inversion H; subst; clear H.
+      intros t' tk' o' Hin.
+      assert (Hin' : In (tk', o') (hist (th s t'))).
+      { cbn [th] in Hin. destruct (Nat.eq_dec t' t) as [->|Hne]; [now rewrite updn_same in Hin | now rewrite updn_other in Hin by exact Hne]. }
+      specialize (HV _ _ _ Hin'). unfold committed in *. cbn [writer comp th].
+      destruct (writer s (t_lock tk')) as [w|] eqn:Ew'.
+      * destruct (Nat.eq_dec w t) as [->|Hw'].
+        -- rewrite updn_same. cbn [tpc set_pc]. now rewrite Epc in HV.
+        -- rewrite updn_other by exact Hw'. pose proof (proj1 (Iw _ _) Ew') as Hiw.
+           destruct (tpc (th s w)); cbn in Hiw; [tauto | tauto | exact HV].
+      * destruct (lk_eq_dec (t_lock tk') (t_lock tk)) as [Ek|Ek]; [|now rewrite updk_other].
+        rewrite Ek, updk_same.
+        (* no writer on this lock: t is a reader, its accesses do not change the component *)
+        destruct (t_write tk) eqn:Em; [assert (writer s (t_lock tk) = Some t) by (apply IwT; auto); rewrite Ek in Ew'; congruence|].
+        destruct A2 as [A2 _]. specialize (A2 Em). rewrite A1 in A2. apply Forall_app in A2 as [_ A2].
+        inversion A2 as [|x l Hx _]; subst. specialize (Hx (comp s (t_lock tk))). rewrite Ea in Hx. cbn [fst] in Hx.
+        rewrite Hx. now rewrite Ek in HV.
+Qed.
+
+Theorem run_invV sched : forall s, Inv s -> InvV s -> InvV (run s sched).
+Proof.
+  induction sched as [|t rest IH]; intros s HI HV; cbn [Conc.run]; [exact HV|].
+  destruct (step s t) eqn:E; [|now apply IH]. apply IH; [eapply step_inv; eauto | eapply step_invV; eauto].
+Qed.
+
+(* at every reachable state, whatever any goroutine was ever told is valid for the committed components *)
+Theorem outputs_stay_valid c0 sched t tk o : (forall k, Good k (c0 k)) ->
+  In (tk, o) (hist (th (run (init lk C out c0 progs) sched) t)) ->
+  Valid tk o (committed (run (init lk C out c0 progs) sched) (t_lock tk)).
+Proof.
+  intros Hg. apply (run_invV sched); [now apply inv_init | intros t' tk' o' []].
+Qed.
+End Validity.
 End Regions.
 
 (* ================= the request pool ================= *)
@@ -450,6 +584,8 @@ Notation ecomp := (Conc.ecomp rule cval).
 Notation eout := (Conc.eout rule cval).
 Notation etask := (task elk ecomp eout).
 Notation EGood := (Conc.EGood rule cval content compile).
+Notation EExt := (Conc.EExt rule cval).
+Notation EValid := (Conc.EValid rule cval).
 Notation allowed := (Conc.allowed rule cval content compile).
 Notation T_lookup := (Conc.T_lookup rule cval).
 Notation T_load := (Conc.T_load rule cval content).
@@ -458,10 +594,28 @@ Notation T_prepare := (Conc.T_prepare rule cval compile).
 Variable progs : tid -> list (etask * list eout) -> option etask.
 Hypothesis progs_allowed : forall t h tk, consistent elk ecomp eout progs t h -> progs t h = Some tk -> allowed h tk.
 
+Lemma upd2_same {A} (m : nat * nat -> option A) i v : upd2 m i v i = v.
+Proof. unfold upd2. now rewrite !Nat.eqb_refl. Qed.
+Lemma upd2_cases {A} (m : nat * nat -> option A) i v j : upd2 m i v j = v /\ j = i \/ upd2 m i v j = m j /\ j <> i.
+Proof.
+  unfold upd2. destruct (Nat.eqb (fst j) (fst i) && Nat.eqb (snd j) (snd i))%bool eqn:E.
+  - apply andb_true_iff in E as [E1 E2]. apply Nat.eqb_eq in E1, E2. left. split; [reflexivity|].
+    destruct i, j; cbn in *; congruence.
+  - right. split; [reflexivity|]. intros ->. now rewrite !Nat.eqb_refl in E.
+Qed.
+
+(* the inserted rule is the output of an atomic load of i *)
+Lemma loaded_is_content h i r : hist_ok elk ecomp eout EGood h -> In (T_load i, [OUnit; ORule (Some r)]) h ->
+  content (fst i) (snd i) = Some r.
+Proof.
+  intros Hh Hin. destruct (Hh _ _ Hin) as (c0 & Hg & Ho). cbn in Hg, Ho. destruct c0 as [m0|o0|cc0]; cbn in Hg; try contradiction.
+  cbn in Ho. inversion Ho. reflexivity.
+Qed.
+
 Lemma eprogs_ok : forall t h tk, consistent elk ecomp eout progs t h -> hist_ok elk ecomp eout EGood h ->
   progs t h = Some tk -> tk_ok elk ecomp eout EGood tk.
 Proof.
-  intros t h tk Hcons Hh Hp. destruct (progs_allowed t h tk Hcons Hp) as [[i ->]|[[i ->]|[[r ->]|(i & r & -> & Hin)]]]; split; cbn.
+  intros t h tk Hcons Hh Hp. destruct (progs_allowed t h tk Hcons Hp) as [[i ->]|[[i ->]|[[r ->]|(i & r & x & -> & Hin)]]]; split; cbn.
   - intros _. constructor; [|constructor]. intro c. reflexivity.
   - intros c Hc. exact Hc.
   - discriminate.
@@ -470,12 +624,34 @@ Proof.
   - intros c Hc. destruct c as [m|o|[v|]]; cbn in *; auto.
   - discriminate.
   - intros c Hc. destruct c as [m|o|cc]; cbn in *; try contradiction.
-    intros j r0. unfold upd2. destruct (Nat.eqb (fst j) (fst i) && Nat.eqb (snd j) (snd i))%bool eqn:E; [|apply Hc].
-    apply andb_true_iff in E as [E1 E2]. apply Nat.eqb_eq in E1, E2. rewrite E1, E2.
-    intro Hr. inversion Hr; subst r0. clear Hr.
-    (* the inserted rule is the output of an atomic load of i *)
-    destruct (Hh _ _ Hin) as (c0 & Hg & Ho). cbn in Hg, Ho. destruct c0 as [m0|o0|cc0]; cbn in Hg; try contradiction.
-    cbn in Ho. inversion Ho. reflexivity.
+    destruct (m i) as [v|] eqn:Ei; cbn; [exact Hc|].
+    intros j r0 x0. destruct (upd2_cases m i (Some (r, x)) j) as [[-> ->]|[-> _]]; [|apply Hc].
+    intro Hr. inversion Hr; subst. eapply loaded_is_content; eauto.
+Qed.
+
+Lemma eprogs_valid : forall t h tk, consistent elk ecomp eout progs t h -> hist_ok elk ecomp eout EGood h ->
+  progs t h = Some tk -> tk_valid elk ecomp eout EGood EExt EValid tk.
+Proof.
+  intros t h tk Hcons Hh Hp c Hc.
+  destruct (progs_allowed t h tk Hcons Hp) as [[i ->]|[[i ->]|[[r ->]|(i & r & x & -> & Hin)]]]; cbn in Hc |- *.
+  - destruct c as [m|o|cc]; cbn in Hc; try contradiction. split; cbn.
+    + auto.
+    + intros _ j v [E|[]]. injection E as Ej Hm. subst j. exact Hm.
+  - split; [exact I | intro E; discriminate].
+  - split; [exact I | intro E; discriminate].
+  - destruct c as [m|o|cc]; cbn in Hc; try contradiction. unfold Conc.run_acts, Conc.cache_insert.
+    destruct (m i) as [v0|] eqn:Ei; cbn [fst snd].
+    + split.
+      * cbn. auto.
+      * intros _ j v [E|[]]. injection E as Ej Hm. subst j v. exact Ei.
+    + split.
+      * cbn. intros j v Hj. destruct (upd2_cases m i (Some (r, x)) j) as [[_ ->]|[-> _]]; [congruence | exact Hj].
+      * intros _ j v [E|[]]. injection E as Ej Hm. subst j v. apply upd2_same.
+Qed.
+Lemma evalid_stable : forall tk o c c', EValid tk o c -> EExt (t_lock tk) c c' -> EValid tk o c'.
+Proof.
+  intros tk o c c' Hv He Hl j v Hin. specialize (Hv Hl j v Hin). rewrite Hl in He.
+  destruct c as [m|?|?]; try contradiction. destruct c' as [m'|?|?]; cbn in He; try contradiction. now apply He.
 Qed.
 
 Variable c0 : elk -> ecomp.
@@ -491,13 +667,43 @@ Proof.
   intro H. destruct (regions_atomic elk elk_eq_dec ecomp eout EGood progs eprogs_ok c0 c0_good sched t _ _ H) as (c & Hg & ->).
   cbn in Hg. destruct c as [m|off|cc]; cbn in Hg; try contradiction. reflexivity.
 Qed.
-(* a completed cache lookup returns nothing or the rule the list holds at that index *)
+(* a completed cache lookup returns nothing or an object holding the rule of the lists at that index *)
 Theorem lookup_returns_content t i o : In (T_lookup i, o) (hist (th s t)) ->
-  o = [ORule None] \/ exists r, o = [ORule (Some r)] /\ content (fst i) (snd i) = Some r.
+  o = [OInst i None] \/ exists r x, o = [OInst i (Some (r, x))] /\ content (fst i) (snd i) = Some r.
 Proof.
   intro H. destruct (regions_atomic elk elk_eq_dec ecomp eout EGood progs eprogs_ok c0 c0_good sched t _ _ H) as (c & Hg & ->).
   cbn in Hg. destruct c as [m|off|cc]; cbn in Hg; try contradiction. cbn.
-  destruct (m i) as [r|] eqn:E; [right; exists r; split; [reflexivity | now apply Hg] | now left].
+  destruct (m i) as [[r x]|] eqn:E; [right; exists r, x; split; [reflexivity | now apply (Hg i r x)] | now left].
+Qed.
+(* a completed insert hands back an object holding the rule of the lists at that index *)
+Theorem insert_returns_content t i r x o : In (T_insert i r x, o) (hist (th s t)) ->
+  exists r' x', o = [OInst i (Some (r', x'))] /\ content (fst i) (snd i) = Some r'.
+Proof.
+  intro H. assert (Hinv := reach_inv elk elk_eq_dec ecomp eout EGood progs eprogs_ok c0 c0_good sched). fold s in Hinv.
+  destruct (regions_atomic elk elk_eq_dec ecomp eout EGood progs eprogs_ok c0 c0_good sched t _ _ H) as (c & Hg & ->).
+  cbn in Hg. destruct c as [m|off|cc]; cbn in Hg; try contradiction. cbn.
+  destruct (m i) as [[r' x']|] eqn:E; cbn.
+  - exists r', x'. split; [reflexivity | now apply (Hg i r' x')].
+  - exists r, x. split; [reflexivity|].
+    (* the strategy only inserts what it loaded *)
+    destruct Hinv as [_ _ _ _ _ Ih _ Ic]. destruct (Ic t) as [Hcons _].
+    assert (Hsuf : forall h, consistent elk ecomp eout progs t h -> hist_ok elk ecomp eout EGood h ->
+              In (T_insert i r x, [OInst i (Some (r, x))]) h -> content (fst i) (snd i) = Some r).
+    { induction h as [|[tk1 o1] h IHh]; [intros _ _ []|]. cbn [consistent]. intros [Hp Hc'] Hok [Eq1|Hin'].
+      - inversion Eq1; subst tk1 o1.
+        assert (Hok' : hist_ok elk ecomp eout EGood h) by (intros a b Hab; apply Hok; now right).
+        destruct (progs_allowed t h _ Hc' Hp) as [[j Ej]|[[j Ej]|[[q Eq]|(j & r1 & x1 & Ej & Hl)]]].
+        + apply (f_equal (fun k => t_write k)) in Ej. discriminate.
+        + apply (f_equal (fun k => t_lock k)) in Ej. discriminate.
+        + apply (f_equal (fun k => t_lock k)) in Eq. discriminate.
+        + (* same region: compare the single access on a probe component *)
+          assert (Ea : cache_insert rule cval i r x = cache_insert rule cval j r1 x1).
+          { apply (f_equal (fun k => t_acts k)) in Ej. cbn in Ej. now inversion Ej. }
+          assert (Hp0 := f_equal (fun f => snd (f (CCache (fun _ => None)))) Ea). cbn in Hp0. inversion Hp0; subst.
+          eapply loaded_is_content; eauto.
+      - apply IHh; auto. intros a b Hab; apply Hok; now right. }
+    apply (Hsuf (hist (th s t))); auto.
+    clear - H E. cbn in H. rewrite E in H. exact H.
 Qed.
 (* a completed preparation returns the compilation of that rule's pattern *)
 Theorem prepare_returns_compile t r o : In (T_prepare r, o) (hist (th s t)) -> o = [OVal (compile r)].
@@ -519,6 +725,23 @@ Proof. apply (progress elk elk_eq_dec ecomp eout EGood progs eprogs_ok c0 c0_goo
 (* the cache holds only rules of the lists whenever no goroutine is writing it *)
 Theorem cache_within_lists : writer s LCache = None -> EGood LCache (comp s LCache).
 Proof. apply (quiescent_good elk elk_eq_dec ecomp eout EGood progs eprogs_ok c0 c0_good sched). Qed.
+
+(* ONE OBJECT PER INDEX: whatever objects the cache ever handed to any goroutines for one index — by a lookup
+   or by an insert, at any time — are the same object.  (The identity-based de-duplication of the lookup tables
+   relies on this; the pinned tree overwrote entries and violated it: F17.) *)
+Theorem single_instance t1 t2 tk1 tk2 o1 o2 i v1 v2 :
+  In (tk1, o1) (hist (th s t1)) -> In (tk2, o2) (hist (th s t2)) ->
+  t_lock tk1 = LCache -> t_lock tk2 = LCache ->
+  In (OInst i (Some v1)) o1 -> In (OInst i (Some v2)) o2 -> v1 = v2.
+Proof.
+  intros H1 H2 L1 L2 I1 I2.
+  pose proof (outputs_stay_valid elk elk_eq_dec ecomp eout EGood progs eprogs_ok EExt EValid evalid_stable eprogs_valid
+                c0 sched t1 tk1 o1 c0_good H1) as V1.
+  pose proof (outputs_stay_valid elk elk_eq_dec ecomp eout EGood progs eprogs_ok EExt EValid evalid_stable eprogs_valid
+                c0 sched t2 tk2 o2 c0_good H2) as V2.
+  fold s in V1, V2. rewrite L1 in V1. rewrite L2 in V2. specialize (V1 L1 i v1 I1). specialize (V2 L2 i v2 I2).
+  destruct (committed elk ecomp eout s LCache) as [m|?|?]; try contradiction. congruence.
+Qed.
 End Engines.
 
 (* ================= a concrete strategy: RetrieveRule followed by preparePattern ================= *)
@@ -528,18 +751,20 @@ Definition ex_compile (r : nat) : nat := r + 1000.
 Notation xtask := (task elk (ecomp nat nat) (eout nat nat)).
 Notation xout := (eout nat nat).
 
-(* the goroutine retrieves index i (cache lookup; on a miss: load from the list, then insert into the cache) and
-   then prepares the pattern of rule object r *)
-Definition strat (i : nat * nat) (r : nat) (h : list (xtask * list xout)) : option xtask :=
+(* the goroutine retrieves index i (cache lookup; on a miss: load from the list, then insert the object it made
+   into the cache) and then prepares the pattern of rule object r; [inst] is the identity of the object it
+   allocates when it has to parse the rule itself *)
+Definition strat (i : nat * nat) (r inst : nat) (h : list (xtask * list xout)) : option xtask :=
   match h with
   | [] => Some (T_lookup nat nat i)
-  | [(_, [ORule None])] => Some (T_load nat nat ex_content i)
-  | [(_, [ORule (Some _)])] => Some (T_prepare nat nat ex_compile r)
-  | [(_, [OUnit; ORule (Some x)]); (_, [ORule None])] => Some (T_insert nat nat i x)
-  | [(_, [OUnit]); (_, [OUnit; ORule (Some _)]); (_, [ORule None])] => Some (T_prepare nat nat ex_compile r)
+  | [(_, [OInst _ None])] => Some (T_load nat nat ex_content i)
+  | [(_, [OInst _ (Some _)])] => Some (T_prepare nat nat ex_compile r)
+  | [(_, [OUnit; ORule (Some x)]); (_, [OInst _ None])] => Some (T_insert nat nat i x inst)
+  | [(_, [OInst _ (Some _)]); (_, [OUnit; ORule (Some _)]); (_, [OInst _ None])] => Some (T_prepare nat nat ex_compile r)
   | _ => None
   end.
-Definition ex_progs (t : tid) := strat (1, t mod 3) (t mod 2).
+(* goroutines 0 and 2 retrieve the same index *)
+Definition ex_progs (t : tid) := strat (1, t mod 2) (t mod 2) (100 + t).
 
 Lemma ex_allowed t h tk : consistent elk (ecomp nat nat) (eout nat nat) ex_progs t h -> ex_progs t h = Some tk ->
   allowed nat nat ex_content ex_compile h tk.
@@ -552,7 +777,7 @@ Proof.
   all: try (left; eexists; reflexivity).
   all: try (right; left; eexists; reflexivity).
   all: try (right; right; left; eexists; reflexivity).
-  right; right; right. eexists _, _. split; [reflexivity|]. left.
+  right; right; right. eexists _, _, _. split; [reflexivity|]. left.
   (* the region before was chosen by the strategy after a miss: it is the load *)
   cbn in Hc. destruct Hc as [Hc _]. unfold strat in Hc. inversion Hc. reflexivity.
 Qed.
@@ -562,14 +787,30 @@ Definition ex_c0 (k : elk) : ecomp nat nat :=
 Lemma ex_c0_good k : EGood nat nat ex_content ex_compile k (ex_c0 k).
 Proof. destruct k; cbn; auto. discriminate. Qed.
 
-(* three goroutines, an interleaving in which loads of different goroutines overlap with each other's seeks *)
+(* three goroutines, an interleaving in which the loads overlap with each other's seeks and goroutines 0 and 2 both
+   miss the cache for index (1,0) before either inserts *)
 Definition ex_sched : list tid :=
   [0;1;2; 0;1;2; 0;1;2; 0;1;2; 0;0;1;1;2;2; 0;1;2;0;1;2; 2;1;0;2;1;0; 0;1;2;0;1;2] ++ concat (repeat [0;1;2;2;1;0] 12).
 Definition ex_final := run elk elk_eq_dec (ecomp nat nat) (eout nat nat) (init elk (ecomp nat nat) (eout nat nat) ex_c0 ex_progs) ex_sched.
 Example ex_runs :
   map (fun t => map snd (hist (th ex_final t))) [0; 1; 2] =
-  [ [[OVal 1000]; [OUnit]; [OUnit; ORule (Some 100)]; [ORule None]];
-    [[OVal 1001]; [OUnit]; [OUnit; ORule (Some 101)]; [ORule None]];
-    [[OVal 1000]; [OUnit]; [OUnit; ORule (Some 102)]; [ORule None]] ].
+  [ [[OVal 1000]; [OInst (1, 0) (Some (100, 100))]; [OUnit; ORule (Some 100)]; [OInst (1, 0) None]];
+    [[OVal 1001]; [OInst (1, 1) (Some (101, 101))]; [OUnit; ORule (Some 101)]; [OInst (1, 1) None]];
+    (* goroutine 2 missed the cache as well, parsed the rule into its own object 102, and was handed object 100 *)
+    [[OVal 1000]; [OInst (1, 0) (Some (100, 100))]; [OUnit; ORule (Some 100)]; [OInst (1, 0) None]] ].
 Proof. vm_compute. reflexivity. Qed.
+
+(* the same goroutines with the insert of the pinned tree (overwrite): two different objects are handed out for
+   one index — the situation in which the identity-based de-duplication reports a rule twice (F17) *)
+Definition strat_ow (i : nat * nat) (r inst : nat) (h : list (xtask * list xout)) : option xtask :=
+  match h with
+  | [(_, [OUnit; ORule (Some x)]); (_, [OInst _ None])] => Some (T_overwrite nat nat i x inst)
+  | _ => strat i r inst h
+  end.
+Definition ex_final_ow := run elk elk_eq_dec (ecomp nat nat) (eout nat nat)
+  (init elk (ecomp nat nat) (eout nat nat) ex_c0 (fun t => strat_ow (1, t mod 2) (t mod 2) (100 + t))) ex_sched.
+Example overwrite_hands_out_two_objects :
+  In (OInst (1, 0) (Some (100, 100))) (concat (map snd (hist (th ex_final_ow 0)))) /\
+  In (OInst (1, 0) (Some (100, 102))) (concat (map snd (hist (th ex_final_ow 2)))).
+Proof. vm_compute. split; tauto. Qed.
 End Example.
